@@ -3,7 +3,7 @@
    memory_pool_collection; implementation logs (results, ranges handed to the lists via the guarded insert
    hook, upstream calls, capacity figures after every operation) are replayed against acc_op. *)
 From Coq Require Import ZArith List Bool.
-From FM Require Import FixedStack SmallCarve PoolSpec SlotProofs ListLib PoolSpecProofs OrderedList OrderedListProofs UnorderedList UnorderedListProofs InvalidRelease SmallList SmallListProofs.
+From FM Require Import FixedStack SmallCarve PoolSpec SlotProofs ListLib PoolSpecProofs OrderedList OrderedListProofs UnorderedList UnorderedListProofs InvalidRelease SmallList SmallListProofs SmallRefine UnorderedRefine.
 Import ListNotations.
 Local Open Scope Z_scope.
 
@@ -123,6 +123,29 @@ Theorem C04_small_list_progress : forall g o, GInv g ->
   end.
 Proof. exact gstep_progress. Qed.
 Print Assumptions C04_small_list_progress.
+
+(* Exec refines Spec, list level.  Over every history of inserts, allocations and releases within the interface's preconditions
+   the small list (SmallList.v) and the intrusive list (UnorderedList.v, node and array requests, refused array requests
+   included) do only what the Spec list of PoolSpec.v accepts: every node or array handed out passes take_slots (free slots
+   of inserted ranges), every release passes give_slots, and the Spec's free count is the list's capacity.  The theorems
+   above about accepted Spec histories therefore apply to every history of these lists, not only to replayed ones. *)
+Theorem C04_small_list_refines_spec : forall ns os g, 0 < ns -> grun {| g_l := sm_empty ns; g_live := [] |} os = Some g ->
+  exists s, corun {| g_l := sm_empty ns; g_live := [] |} {| ss_rs := []; ss_l := sl ns [] 0 |} os = Some (g, s) /\
+            l_nfree (ss_l s) = sm_capacity (g_l g) /\ live_slots (ss_l s) = g_live g.
+Proof. exact small_list_refines_spec. Qed.
+Print Assumptions C04_small_list_refines_spec.
+
+(* the nodes the chunks of an inserted block offer are exactly the slots the Spec attributes to that range *)
+Theorem C04_small_list_carves_the_spec_slots : forall ns mem size a, 1 <= ns -> 0 <= size ->
+  In a (free_addrs ns (carve ns mem size)) <-> is_slot LSmall ns (mem, size) a = true.
+Proof. exact carve_slots. Qed.
+Print Assumptions C04_small_list_carves_the_spec_slots.
+
+Theorem C04_unordered_list_refines_spec : forall ns os g, 0 < ns -> ugrun {| ug_l := u_empty ns; ug_live := [] |} os = Some g ->
+  exists s, ucorun {| ug_l := u_empty ns; ug_live := [] |} {| us_rs := []; us_l := ul ns [] 0 |} os = Some (g, s) /\
+            l_nfree (us_l s) = u_capacity (ug_l g) /\ l_allocs (us_l s) = ug_live g.
+Proof. exact unordered_list_refines_spec. Qed.
+Print Assumptions C04_unordered_list_refines_spec.
 
 (* non-vacuity: an accepted history on a 16-byte list: insert 10 nodes, take a 3x8-byte array (2 nodes) and a node, give both back *)
 Example C04_nonvacuous :
